@@ -57,9 +57,11 @@ def surface_position(
     lat_even_s = lat_even_n - 90
     lat_odd_s = lat_odd_n - 90
 
-    # chose which solution corrispondes to receiver location
-    lat_even = lat_even_n if lat_ref > 0 else lat_even_s
-    lat_odd = lat_odd_n if lat_ref > 0 else lat_odd_s
+    # chose which solution corrispondes to receiver location (the closest one)
+    north = abs(lat_even_n - lat_ref) <= abs(lat_even_s - lat_ref)
+    lat_even = lat_even_n if north else lat_even_s
+    north = abs(lat_odd_n - lat_ref) <= abs(lat_odd_s - lat_ref)
+    lat_odd = lat_odd_n if north else lat_odd_s
 
     # check if both are in the same latidude zone, rare but possible
     if common.cprNL(lat_even) != common.cprNL(lat_odd):
@@ -87,7 +89,7 @@ def surface_position(
     lons = [(lon + 180) % 360 - 180 for lon in lons]
 
     # the closest solution to receiver is the correct one
-    dls = [abs(lon_ref - lon) for lon in lons]
+    dls = [abs((lon_ref - lon + 180) % 360 - 180) for lon in lons]
     imin = min(range(4), key=dls.__getitem__)
     lon = lons[imin]
 
